@@ -189,6 +189,16 @@ class BMSMap(Map[BMSNoteList, BMSHitList, BMSHoldList, BMSBpmList], BMSMapMeta):
 
         self.misc = data
 
+    def _ln_end_channel(self) -> bytes:
+        """The #LNOBJ id to write
+
+        A map read from a file without #LNOBJ has none (b""), holds added to it
+        afterwards still need one to denote their tails: the default is used.
+        """
+        return self.ln_end_channel or (
+            BMSMapMeta.ln_end_channel if len(self.holds) else b""
+        )
+
     def _write_file_header(self) -> bytes:
         # May need to change all header stuff to a byte string first.
 
@@ -221,12 +231,13 @@ class BMSMap(Map[BMSNoteList, BMSHitList, BMSHoldList, BMSBpmList], BMSMapMeta):
             misc.append(b"#" + k + b" " + v)
 
         ln_obj = b""
-        if self.ln_end_channel:
+        ln_end_channel = self._ln_end_channel()
+        if ln_end_channel:
             # noinspection PyTypeChecker
             ln_obj = b"#LNOBJ " + (
-                encode(self.ln_end_channel, ENCODING)
-                if not isinstance(self.ln_end_channel, bytes)
-                else self.ln_end_channel
+                encode(ln_end_channel, ENCODING)
+                if not isinstance(ln_end_channel, bytes)
+                else ln_end_channel
             )
 
         assert (
@@ -489,7 +500,7 @@ class BMSMap(Map[BMSNoteList, BMSHitList, BMSHoldList, BMSBpmList], BMSMapMeta):
         ]
 
         hold_tails = [
-            (snap, channel_map[column], self.ln_end_channel)
+            (snap, channel_map[column], self._ln_end_channel())
             for snap, column in zip(
                 tm.snaps(self.holds.tail_offset, snapper), self.holds.column
             )
